@@ -994,6 +994,7 @@ func (r *Resolver) executeSubscriptionUpdate(resolveCtx *Context, sub *subscript
 	defer cancel()
 
 	resolveCtx = resolveCtx.WithContext(ctx)
+	verifYield("c12.upd.x0")
 
 	// Copy the input.
 	input := make([]byte, len(sharedInput))
@@ -1044,6 +1045,7 @@ func (r *Resolver) executeSubscriptionUpdate(resolveCtx *Context, sub *subscript
 		return
 	}
 
+	verifYield("c12.upd.w")
 	sub.writeMu.Lock()
 	if sub.removed.Load() {
 		sub.writeMu.Unlock()
@@ -1173,6 +1175,7 @@ func (r *Resolver) unregisterSubscriptionLocked(id SubscriptionIdentifier) {
 
 // addSubscription registers a new subscription under the given trigger.
 func (r *Resolver) addSubscription(triggerID uint64, add *addSubscription) error {
+	verifYield("c12.add.R")
 	r.mu.Lock()
 	defer r.mu.Unlock()
 	if r.shutdown {
@@ -1280,6 +1283,7 @@ func (r *Resolver) getTrigger(id uint64) (*trigger, bool) {
 // Trigger ids are derived from input and headers, so after a trigger has been removed a newer
 // one can be registered under the same id; callbacks of the old updater must never reach it.
 func (r *Resolver) getUpdaterTrigger(u *subscriptionUpdater) (*trigger, bool) {
+	verifYield("c12.ut.R")
 	r.mu.Lock()
 	defer r.mu.Unlock()
 	trig, ok := r.triggers[u.triggerID]
@@ -1294,6 +1298,7 @@ func (r *Resolver) getUpdaterTrigger(u *subscriptionUpdater) (*trigger, bool) {
 // (which reads initialized under r.mu to decide on TriggerCountDec) cannot slip in between, and
 // a newer trigger registered under the same id is never marked on behalf of an old one.
 func (r *Resolver) markTriggerInitialized(trig *trigger) {
+	verifYield("c12.init0")
 	r.mu.Lock()
 	defer r.mu.Unlock()
 	if r.triggers[trig.id] != trig {
@@ -1311,6 +1316,7 @@ func (r *Resolver) doneTriggerFromUpdater(u *subscriptionUpdater) {
 	if r.options.Debug {
 		fmt.Printf("resolver:trigger:shutdown:%d\n", u.triggerID)
 	}
+	verifYield("c12.dtu.R")
 	r.mu.Lock()
 	var res removeResult
 	if trig, ok := r.triggers[u.triggerID]; ok && trig.updater == u {
@@ -1340,6 +1346,7 @@ func (r *Resolver) handleTriggerComplete(u *subscriptionUpdater) {
 
 	for _, s := range subs {
 		if !s.removed.Load() {
+			verifYield("c12.cmpl.y")
 			s.complete()
 		}
 	}
@@ -1356,12 +1363,14 @@ func (r *Resolver) handleTriggerError(u *subscriptionUpdater, data []byte) {
 
 	for _, s := range subs {
 		if !s.removed.Load() {
+			verifYield("c12.err.y")
 			s.error(data)
 		}
 	}
 }
 
 func (r *Resolver) removeClient(id ConnectionID) removeClientResult {
+	verifYield("c12.rmclient.R")
 	r.mu.Lock()
 	defer r.mu.Unlock()
 	if r.shutdown {
@@ -1583,6 +1592,7 @@ func (r *Resolver) shutdownResolver() {
 	if r.options.Debug {
 		fmt.Printf("resolver:trigger:shutdown\n")
 	}
+	verifYield("c12.shut.R")
 	r.mu.Lock()
 	if r.shutdown {
 		r.mu.Unlock()
@@ -1648,6 +1658,7 @@ func (r *Resolver) heartbeatLoop() {
 }
 
 func (r *Resolver) sendTriggerHeartbeats() {
+	verifYield("c12.hb.R")
 	r.mu.Lock()
 	triggerIDs := make([]uint64, 0, len(r.triggers))
 	for id := range r.triggers {
@@ -1666,6 +1677,7 @@ type SubscriptionIdentifier struct {
 }
 
 func (r *Resolver) UnsubscribeSubscription(id SubscriptionIdentifier) error {
+	verifYield("c12.unsub.R")
 	r.mu.Lock()
 	if r.shutdown {
 		r.mu.Unlock()
@@ -1948,6 +1960,7 @@ type subscriptionUpdater struct {
 }
 
 func (s *subscriptionUpdater) Update(data []byte) {
+	verifYield("c12.upd.U")
 	s.mu.Lock()
 	defer s.mu.Unlock()
 	if s.done || s.ctx.Err() != nil {
@@ -1969,6 +1982,7 @@ func (s *subscriptionUpdater) Heartbeat() {
 }
 
 func (s *subscriptionUpdater) UpdateSubscription(id SubscriptionIdentifier, data []byte) {
+	verifYield("c12.updsub.U")
 	s.mu.Lock()
 	defer s.mu.Unlock()
 	if s.done || s.ctx.Err() != nil {
@@ -1985,6 +1999,7 @@ func (s *subscriptionUpdater) Subscriptions() map[context.Context]SubscriptionId
 }
 
 func (s *subscriptionUpdater) Complete() {
+	verifYield("c12.cmpl.U")
 	s.mu.Lock()
 	defer s.mu.Unlock()
 	if s.done || s.ctx.Err() != nil {
@@ -2000,6 +2015,7 @@ func (s *subscriptionUpdater) Complete() {
 }
 
 func (s *subscriptionUpdater) Error(data []byte) {
+	verifYield("c12.err.U")
 	s.mu.Lock()
 	defer s.mu.Unlock()
 	if s.done || s.ctx.Err() != nil {
@@ -2015,6 +2031,7 @@ func (s *subscriptionUpdater) Error(data []byte) {
 }
 
 func (s *subscriptionUpdater) Done() {
+	verifYield("c12.done.U")
 	s.mu.Lock()
 	defer s.mu.Unlock()
 	if s.done {
@@ -2028,6 +2045,7 @@ func (s *subscriptionUpdater) Done() {
 }
 
 func (s *subscriptionUpdater) CloseSubscription(id SubscriptionIdentifier) {
+	verifYield("c12.close.U")
 	s.mu.Lock()
 	defer s.mu.Unlock()
 	if s.done || s.ctx.Err() != nil {
